@@ -422,6 +422,22 @@ def run(ctx):
             run.instance(R5, {"fn": "scan", "obligation": "the label passed to set_acct_path depends on a counter that is incremented inside the same loop", "counters": ["_%d" % l for l, _ in counters]}, held=held)
             if not held:
                 run.finding(Finding(R5, sc.id, "labels of re-created accounts do not advance: several restored accounts would share one label (and overwrite each other's path)", site=c.site_of(sc, b)))
+            # the label is one that is not in use: set_acct_path re-points an existing label
+            free = set()
+            for cb_, ct_ in sc.calls():
+                nm_ = ct_.get("f") or ""
+                if not nm_.endswith("::contains") or len(ct_["a"]) < 2:
+                    continue
+                a1 = vf.op_place(ct_["a"][1])
+                if not a1 or "String" not in (sc.locals[a1[0]].get("ty") or "") and "str" not in (sc.locals[a1[0]].get("ty") or ""):
+                    continue
+                if not vf.has_call(vf.origins(sc, ct_["a"][0]), c.WB + "acct_path_iter"):
+                    continue
+                free |= cfg.call_guard(sc, cb_).fail
+            h = bool(free) and cfg.must_pass(sc, free, {b})[0]
+            run.instance(R5, {"fn": "scan", "obligation": "set_acct_path only with a label that no existing account carries (the `labels.contains(&label)` false edge)", "edges": len(free)}, held=h)
+            if not h:
+                run.finding(Finding(R5, sc.id, "the label given to a re-created account is not checked against the labels in use: set_acct_path re-points a label the user chose, that account's path loses its label", site=c.site_of(sc, b)))
             # and the path stored is the found parent path being iterated (not a constant / other variable)
             po = vf.origins(sc, t["a"][3])
             h = vf.has_call(po, "std::collections::hash::map::Iter") or any(x[0] == "call" and "hash::map" in x[1] for x in po) or vf.has_call(po, "alloc::vec::Vec::<T>::new")
@@ -556,6 +572,71 @@ def run(ctx):
                 run.finding(Finding(R7, fid, "a new output's key is derived under %s but the output is filed under an account that can differ: the wallet and a restore from seed attribute it to different accounts" % ("the active account" if frozen == {"ACTIVE"} else "another account operand"), site=c.site_of(f, b), detail="; ".join("%s <- %s" % (w, ", ".join(d)) for w, d in bad)))
     if n7 == 0:
         run.error("C16.R7: no key derivation site (next_child / next_available_key) found")
+    R8 = "C16.R8"
+    run.rule(R8, "the refresh a scan starts from brings every record the node reports to the node's status and height (scan itself only looks at the status of matched records)", floor=2)
+    from .shared import refresh_transitions
+    refresh_transitions(ctx, R8)
+    R9 = "C16.R9"
+    run.rule(R9, "a scan that drops pending transactions deletes an Unconfirmed record only if the chain scan did not find its commitment (the refresh before it covers the active account only; a mined output of another account is still Unconfirmed in the wallet)", floor=1)
+    if sc:
+        PASS9 = ("IntoIterator::into_iter", "::iter", "Clone::clone", "Deref::deref", "Iterator::cloned", "Iterator::copied", "Iterator::map", "Iterator::collect", "Iterator::filter")
+
+        def _from_chain(o, depth=0):
+            pr = vf.producers(sc, o)
+            if vf.has_call(pr, S + "collect_chain_outputs"):
+                return True
+            for x in pr:
+                if x[0] == "call" and x[1].endswith(PASS9) and depth < 8:
+                    if _from_chain(sc.bbs[x[2]]["t"]["a"][0], depth + 1):
+                        return True
+            return False
+
+        sel = None
+        for k in db.closures_of(sc.id):
+            g = db.fns[k]
+            for x in cfg.comparisons(g):
+                if x.op == "Eq":
+                    pl, pr_ = vf.producers(g, x.l), vf.producers(g, x.r)
+                    for a, b_ in ((pl, pr_), (pr_, pl)):
+                        if vf.has_field(a, OD, "status") and ("agg", OS, "Unconfirmed") in b_:
+                            sel = (g, x)
+        held = False
+        why = "selection closure (status == Unconfirmed) not found"
+        if sel is not None:
+            g, xs = sel
+            # inside the closure: a membership test whose "not contained" outcome is needed to return true
+            tests = []
+            for cb_, ct_ in g.calls():
+                nm_ = ct_.get("f") or ""
+                if nm_.endswith(("::contains", "::contains_key")) or nm_.endswith(("Iterator::any",)):
+                    tests.append((cb_, ct_))
+            why = "the closure that selects the records to delete does not ask whether the commitment was found on chain"
+            for cb_, ct_ in tests:
+                gd = cfg.call_guard(g, cb_)
+                rets_true = [bb_i for bb_i, bb in enumerate(g.bbs) for st in bb["s"] if st["k"] == "a" and st["d"] == [0, []] and st["r"]["k"] == "use" and st["r"]["o"].get("k") is not None and st["r"]["o"]["k"].get("v") == "1"]
+                direct = [bb_i for bb_i, bb in enumerate(g.bbs) for st in bb["s"] if st["k"] == "a" and st["d"] == [0, []] and not (st["r"]["k"] == "use" and st["r"]["o"].get("k") is not None)]
+                sinks_ = set(rets_true) | set(direct)
+                # `... && !xs.contains(..)`: the result is returned as Not(contains): true exactly when not contained
+                negated = any(st["k"] == "a" and st["d"] == [0, []] and st["r"]["k"] == "un" and st["r"]["op"] == "Not" and vf.op_place(st["r"]["o"]) and not ct_["d"][1] and vf.op_place(st["r"]["o"])[0] == ct_["d"][0] for bb_i in direct for st in g.bbs[bb_i]["s"])
+                if negated and len(direct) == 1 and not rets_true:
+                    ok_shape = True
+                else:
+                    ok_shape = bool(gd.fail) and bool(sinks_) and cfg.must_pass(g, gd.fail, sinks_)[0]
+                if ok_shape:
+                    # the collection that is searched is captured from scan and derives from collect_chain_outputs
+                    cap = False
+                    for bb in sc.bbs:
+                        for st in bb["s"]:
+                            if st["k"] == "a" and st["r"]["k"] == "agg" and st["r"].get("ak") == "closure" and st["r"].get("adt") == g.id:
+                                for _n, o_ in st["r"]["f"]:
+                                    bl = vf.base_local_of_ref(sc, o_)
+                                    if bl is not None and _from_chain({"c": [bl, []]}):
+                                        cap = True
+                    if cap:
+                        held = True
+        run.instance(R9, {"fn": "scan", "obligation": "records selected for deletion: status == Unconfirmed and commitment not among the chain outputs"}, held=held)
+        if not held:
+            run.finding(Finding(R9, sc.id, "with delete_unconfirmed a scan deletes every Unconfirmed record, also one whose output it has just found on chain (an account that was not refreshed): the funds vanish and the next scan restores them", site=sc.loc(), detail=why))
     run.not_decided += [
         "completeness over chain histories ('exactly the outputs of the seed') - depends on range-proof rewinding and the node's paging",
         "equality of the restored totals with the original wallet",
